@@ -66,7 +66,7 @@ ID_COMPOUND = ["pi/4", "pi+1", "e/2", "sqrt(2)+1", "pi**2/4", "2*log(2)", "e-1",
 
 def shards(tier):
     k = 1 if tier == "quick" else 25
-    return ([("pslq", 900 * k)] * 5 + [("findpoly", 260 * k)] * 4 + [("identify", 34 * k)] * 7)
+    return ([("pslq", 2200 * k)] * 5 + [("findpoly", 1000 * k)] * 4 + [("identify", 200 * k)] * 7)
 
 
 # ------------------------------------------------------------------------------------------------ generation
@@ -88,6 +88,21 @@ def _rand_real(d, p):
     return exact.mk(d.int(0, 1), m, d.int(-3, 2) - p + 1)
 
 
+def _generic_real(d, p):
+    """raw p-bit number with magnitude in [2^-3, 2^3) whose mantissa bits are a fixed pseudo-random function (SHA-256)
+    of a drawn 64-bit seed: Hypothesis prefers structured integers (long runs of zero bits), which are numbers with
+    accidental near-relations; the completeness clause is about generic reals"""
+    import hashlib
+    seed = d.bits(64)
+    bits = 0
+    i = 0
+    while bits.bit_length() < p + 256:
+        bits = (bits << 256) | int.from_bytes(hashlib.sha256(b"%d:%d" % (seed, i)).digest(), "big")
+        i += 1
+    m = (1 << (p - 1)) | (bits & ((1 << (p - 1)) - 1))
+    return exact.mk(d.int(0, 1), m, d.int(-3, 2) - p + 1)
+
+
 def _tol(d, p, lo=3, hi=None):
     hi = p - 1 if hi is None else hi
     return [d.int(lo, max(lo, hi)), d.int(0, 15), d.choice(["float", "mpf"])]
@@ -105,7 +120,7 @@ def _coeffs(d, n, h):
 
 
 def _gen_pslq(d, tier):
-    kind = d.weighted([(4, "none"), (8, "planted"), (3, "natural"), (5, "complete")])
+    kind = d.weighted([(8, "planted"), (5, "complete"), (4, "none"), (3, "natural")])
     p = _prec(d)
     if d.int(0, 60) == 0:
         p = d.int(30, 52)
@@ -120,12 +135,12 @@ def _gen_pslq(d, tier):
         need = int(2 * n * math.log2(2 * mce) + 30) + 1
         tolbits = need + d.int(0, 40)
         p = max(p, int(tolbits / 0.75) + 2, tolbits + int(math.log2(n * h)) + 12, int(4 * n * math.log2(2 * h)) + 31)
-        p = min(p, 400)
+        p = min(p, 300)
         c["p"] = p
         if d.bool():
             c["tol"] = None
         else:
-            tb = d.int(need, p - int(math.log2(n * h)) - 12)
+            tb = d.int(need, max(need, p - int(math.log2(n * h)) - 12))
             c["tol"] = [tb, 0, d.choice(["float", "mpf"])]
         c["maxcoeff"] = mc
         c["maxsteps"] = d.choice([1000, 2000, 10000])
@@ -159,7 +174,7 @@ def _gen_pslq(d, tier):
             elif d.int(0, 3) == 0:
                 items.append(["const", d.choice(INDEP)])
             else:
-                items.append(["raw", J(_rand_real(d, p))])
+                items.append(["raw", J(_generic_real(d, p))])
         c["items"] = items
         c["rel"] = rel
         if d.int(0, 3) == 0:
@@ -190,7 +205,7 @@ def _gen_pslq(d, tier):
     for i in range(n):
         t = d.weighted([(6, "raw"), (3, "const"), (1 if scale == 0 else 0, "int")])
         if t == "raw":
-            items.append(["raw", J(_rand_real(d, p))])
+            items.append(["raw", J(_rand_real(d, p) if d.int(0, 2) == 0 else _generic_real(d, p))])
         elif t == "const":
             items.append(["const", d.choice(list(CONST))])
         else:
@@ -276,9 +291,10 @@ def _gen_findpoly(d, tier):
         tolbits = need + d.int(0, 30)
         p = max(p, int(tolbits / 0.75) + 2, tolbits + int(math.log2((n + 1) * hh)) + 12,
                 int(4 * (n + 1) * math.log2(2 * hh)) + 31)
+        p = min(p, 300)
         c["p"] = p
         if d.bool():
-            c["tol"] = [d.int(need, p - int(math.log2((n + 1) * hh)) - 12), 0, d.choice(["float", "mpf"])]
+            c["tol"] = [d.int(need, max(need, p - int(math.log2((n + 1) * hh)) - 12)), 0, d.choice(["float", "mpf"])]
         c["maxcoeff"] = mc
         c["maxsteps"] = d.choice([1000, 3000, 10000])
         c["n"] = n
@@ -324,15 +340,15 @@ def _gen_identify(d, tier):
                           for i in range(nconst)]]
     else:
         cspec = ["list", consts]
-    form = d.weighted([(2, "rat"), (3, "qconst"), (2, "sqrtq"), (2, "expq"), (2, "logq"), (3, "quad"), (5, "lin"),
-                       (3, "prod"), (6, "tf"), (1, "raw"), (1, "one")])
+    form = d.weighted([(5, "lin"), (6, "tf"), (3, "qconst"), (2, "sqrtq"), (2, "expq"), (2, "logq"), (3, "quad"),
+                       (3, "prod"), (2, "rat"), (1, "raw"), (1, "one")])
 
     def cref():
         return ["c", d.int(0, nconst - 1)] if nconst else ["q", d.choice([2, 3, 5, 7]), 1]
 
     def lin(pos=True):
         e = None
-        terms = [_sq(d) if not pos else _q(d, 0, 12, 8)]
+        terms = [_sq(d) if (not pos and nconst) else _q(d, 1, 12, 8)]
         for i in range(nconst):
             if d.int(0, 3):
                 co = _q(d, 1, 9, 7)
@@ -430,7 +446,14 @@ _NS = {}
 def _ref_ns():
     import mpref
     if "ns" not in _NS:
-        _NS["ns"] = dict((name, getattr(mpref.mp, name)) for name in dir(mpref.mp) if not name.startswith("_"))
+        ns = {}
+        for name in dir(mpref.mp):
+            if not name.startswith("_"):
+                try:
+                    ns[name] = getattr(mpref.mp, name)
+                except Exception:  # noqa
+                    pass
+        _NS["ns"] = ns
     return dict(_NS["ns"])
 
 
@@ -621,12 +644,21 @@ def _x_hi(xs, H):
 
 # ------------------------------------------------------------------------------------------------ checks
 
-def _sound(res, bucket, what, r, xs, tolF, maxcoeff, p, extra_allow=Fraction(0), nmax=None, exact_len=None):
+def _fl(v):
+    """float for messages (never raises)"""
+    try:
+        return float(v)
+    except (OverflowError, ZeroDivisionError):
+        return float("inf") if v > 0 else float("-inf")
+
+
+def _sound(res, bucket, what, r, xs, tolF, maxcoeff, p, extra_allow=Fraction(0), nmax=None, exact_len=None, shown=None):
     """common soundness test of an integer vector r against exact values xs (Fractions, same order as r).
     Returns True when r is well formed (so that further tests make sense)."""
     if not _is_int_list(r):
         res.bad(bucket + ":type", "%s returned %r (expected a list of Python ints or None)" % (what, r))
         return False
+    shown = r if shown is None else shown
     if exact_len is not None and len(r) != exact_len:
         res.bad(bucket + ":length", "%s returned %d coefficients for %d numbers: %r" % (what, len(r), exact_len, r))
         return False
@@ -639,15 +671,15 @@ def _sound(res, bucket, what, r, xs, tolF, maxcoeff, p, extra_allow=Fraction(0),
         return False
     if max(abs(v) for v in r) >= maxcoeff:
         res.bad(bucket + ":maxcoeff", "%s returned %r: max|c_k| = %d is not < maxcoeff = %d" % (
-            what, r, max(abs(v) for v in r), maxcoeff))
+            what, shown, max(abs(v) for v in r), maxcoeff))
     S = abs(sum(ck * xk for ck, xk in zip(r, xs)))
     nrm = _sqrt_up(sum(xk * xk for xk in xs))
     sa = sum(abs(v) for v in r)
     allowed = tolF * nrm * (1 + Fraction(1, 1 << 30)) + sa * Fraction(1, 1 << (p + 57)) * (nrm + 1) + extra_allow
     if S > allowed:
         res.bad(bucket + ":residual", "%s returned %r but |sum c_k x_k| = %.6g exceeds tol*||x|| = %.6g (tol = %.6g, "
-                                      "ratio %.4g)" % (what, r, float(S), float(tolF * nrm), float(tolF),
-                                                      float(S / (tolF * nrm))))
+                                      "ratio %.4g)" % (what, shown, _fl(S), _fl(tolF * nrm), _fl(tolF),
+                                                      _fl(S / (tolF * nrm))))
     return True
 
 
@@ -724,6 +756,7 @@ def _check_pslq(c, res):
                     and p >= tb + math.log2(n * h) + 10
                     and p >= 4 * n * math.log2(2 * h) + 30
                     and minx * (1 << 20) >= nrm and minx >= 4 * tolF)
+    res.cls += ":None" if r is None else ":vector"
     if r is None:
         if complete:
             res.bad("pslq:missed", "%s returned None although the relation %r (height %d) exists" % (what, rel, h))
@@ -736,7 +769,7 @@ def _check_pslq(c, res):
             res.nontrivial = True
         elif complete:
             res.bad("pslq:spurious", "%s returned %r which is not a relation of the exact numbers (planted %r, residual "
-                                     "%.3g)" % (what, r, rel, float(resid)))
+                                     "%.3g)" % (what, r, rel, _fl(resid)))
     return res
 
 
@@ -787,6 +820,7 @@ def _check_findpoly(c, res):
                     and p >= tb + math.log2((n + 1) * h) + 10
                     and p >= 4 * (n + 1) * math.log2(2 * h) + 30
                     and Fraction(1, 1 << 10) <= ax ** n <= (1 << 20))
+    res.cls += ":None" if r is None else ":poly"
     if r is None:
         if complete:
             res.bad("findpoly:missed", "%s returned None although x is a root of %r (low to high)" % (what, kp))
@@ -802,7 +836,7 @@ def _check_findpoly(c, res):
     lowfirst = r[::-1]
     pw = [xF ** k for k in range(m + 1)]
     extra = sum(abs(ck) * abs(xk) for ck, xk in zip(lowfirst, pw)) * Fraction(4, 1 << p)
-    ok = _sound(res, "findpoly", what, lowfirst, pw, tolF, maxcoeff, p, extra_allow=extra, nmax=n)
+    ok = _sound(res, "findpoly", what, lowfirst, pw, tolF, maxcoeff, p, extra_allow=extra, nmax=n, shown=r)
     if ok:
         dgr = m
         while dgr > 0 and r[m - dgr] == 0:
@@ -812,7 +846,7 @@ def _check_findpoly(c, res):
             genuine = val * (1 << (2 * p)) <= sum(abs(ck) * abs(Xhi) ** k for k, ck in enumerate(lowfirst))
             if complete and not genuine:
                 res.bad("findpoly:spurious", "%s returned %r which does not vanish at the exact x (a root of %r): P(x) = %.3g"
-                        % (what, r, kp, float(val)))
+                        % (what, r, kp, _fl(val)))
             res.nontrivial = genuine and dgr >= 2
         else:
             res.nontrivial = dgr >= 2
@@ -894,6 +928,7 @@ def _check_identify(c, res):
     if mp.prec != p:
         res.bad("identify:prec_leak", "%s left mp.prec = %d" % (what, mp.prec))
         mp.prec = p
+    res.cls += ":None" if not r else ":formula"
     if r is None:
         if full:
             res.bad("identify:type", "%s returned None with full=True (a list is documented)" % what)
@@ -927,7 +962,7 @@ def _check_identify(c, res):
                         "without parentheses (%r is correct)" % (what, s, info, s2))
                 continue
         res.bad("identify:value", "%s returned %r which evaluates to %s; x = %.17g, allowed difference %.3g" % (
-            what, s, info, float(xF), float(bound)))
+            what, s, info, _fl(xF), _fl(bound)))
     return res
 
 
@@ -947,7 +982,7 @@ def _formula_ok(s, H, extra, xF, bound):
         val = F(v[1])
     if abs(val - xF) <= bound:
         return True, ""
-    return False, "%.17g (difference %.3g)" % (float(val), float(abs(val - xF)))
+    return False, "%.17g (difference %.3g)" % (_fl(val), _fl(abs(val - xF)))
 
 
 def check_case(c):
@@ -969,7 +1004,12 @@ def check_case(c):
 
 def region_identify_one(case):
     """identify(+-1, ..., full=True): the transformation c/log(x) divides by log(1) = 0"""
-    return case.get("kind") == "identify" and case.get("full") and case["x"][0] == "q" and case["x"][1] == case["x"][2]
+    if case.get("kind") != "identify" or not case.get("full"):
+        return False
+    x = case["x"]
+    if x[0] == "neg":
+        x = x[1]
+    return x[0] == "q" and x[1] == x[2]
 
 
 def region_identify_compound(case):
